@@ -343,6 +343,8 @@ Qed.
 
 (* the function clang compiled - glibc's W* macros expanded - decodes every
    wait status, every [int] and beyond, as [exit_spec] says; it never traps *)
+Ltac fin := first [reflexivity | cbv beta iota; f_equal; lia].
+
 Lemma exit_of_wait_eq w g : exit_of_wait w g = Some (exit_spec w g).
 Proof.
   unfold exit_of_wait, exitstatus, exit_spec.
@@ -356,16 +358,18 @@ Proof.
   rewrite !cshr_int_some by lia.
   rewrite !cgt_some, !cif_some, !creturn_some.
   unfold sigalrm.
-  destruct (g =? 14); cbn [Z.eqb]; [reflexivity|].
-  destruct (Z.eqb_spec (w mod 128) 0) as [E0|E0]; cbn [Z.eqb]; [reflexivity|].
+  (* the remaining goals compare two decision trees over g, w mod 128 and (w / 256) mod 256;
+     [fin] closes a leaf whatever the order of the operands in the source *)
+  destruct (g =? 14); cbn [Z.eqb]; [fin|].
+  destruct (Z.eqb_spec (w mod 128) 0) as [E0|E0]; cbn [Z.eqb]; [fin|].
   rewrite Z.shiftr_div_pow2 by lia. change (2 ^ 1) with 2. unfold cwrap_schar.
   destruct (Z.ltb_spec (w mod 128) 127) as [E1|E1].
   - rewrite (Z.mod_small (w mod 128 + 1 + 128) 256) by lia.
-    destruct (Z.ltb_spec 0 ((w mod 128 + 1 + 128 - 128) / 2)) as [E2|E2]; cbn [Z.eqb]; [reflexivity|].
+    destruct (Z.ltb_spec 0 ((w mod 128 + 1 + 128 - 128) / 2)) as [E2|E2]; cbn [Z.eqb]; [fin|].
     exfalso. assert (H2 : 2 <= w mod 128 + 1 + 128 - 128) by lia.
     pose proof (Z.div_le_mono 2 (w mod 128 + 1 + 128 - 128) 2 ltac:(lia) H2) as H3.
     change (2 / 2) with 1 in H3. lia.
-  - assert (E : w mod 128 = 127) by lia. rewrite E. reflexivity.
+  - assert (E : w mod 128 = 127) by lia. rewrite E. fin.
 Qed.
 
 Lemma exit_spec_exited code g : 0 <= code <= 255 -> g <> sigalrm -> exit_spec (w_exited code) g = code.
@@ -421,6 +425,27 @@ Proof.
   intros Hk Hg. destruct Hk as [code Hc|s core Hs].
   - rewrite exit_spec_exited by assumption. unfold w_exited. lia.
   - rewrite exit_spec_signaled by assumption. unfold w_signaled, w_exited. destruct core; lia.
+Qed.
+
+Lemma exit_faithful_all :
+  (forall w g, exit_of_wait w g = Some (exit_spec w g)) /\
+  (forall code g, 0 <= code <= 255 -> g <> sigalrm -> exit_of_wait (w_exited code) g = Some code) /\
+  (forall s core g, 1 <= s <= 126 -> g <> sigalrm -> exit_of_wait (w_signaled s core) g = Some (128 + s)) /\
+  (forall w, exit_of_wait w sigalrm = Some 124) /\
+  (forall w g, kernel_status w -> g <> sigalrm -> (exit_of_wait w g = Some 0 <-> w = w_exited 0)) /\
+  (forall w g, exit_of_wait w g = Some 0 <-> g <> sigalrm /\ w mod 128 = 0 /\ (w / 256) mod 256 = 0) /\
+  (forall w g, 0 <= exit_spec w g <= 255).
+Proof.
+  split; [exact exit_of_wait_eq|].
+  split; [intros code g Hc Hg; rewrite exit_of_wait_eq; f_equal; now apply exit_spec_exited|].
+  split; [intros s core g Hs Hg; rewrite exit_of_wait_eq; f_equal; now apply exit_spec_signaled|].
+  split; [intros w; rewrite exit_of_wait_eq; f_equal; apply exit_spec_timeout|].
+  split.
+  - intros w g Hk Hg. rewrite exit_of_wait_eq, <- (exit_zero_iff_exited_zero w g Hk Hg).
+    split; [intros H; now injection H|intros ->; reflexivity].
+  - split; [|exact exit_spec_range].
+    intros w g. rewrite exit_of_wait_eq, <- exit_spec_zero.
+    split; [intros H; now injection H|intros ->; reflexivity].
 Qed.
 
 (* ---- the run ------------------------------------------------------------------------------------ *)
@@ -583,6 +608,7 @@ Proof.
       * destruct (append_vars reserved vs) as [r|d] eqn:Ea.
         -- split.
            ++ intros H. injection H as <-. constructor; [|now apply IH].
+              unfold var_rel. cbn [fst snd].
               repeat split; [exact Es|exact Hn|]. intros Hi. apply existsb_beq in Hi. congruence.
            ++ intros H. inversion H as [|s' p vs' ex' [Hs [Hn' Hr]] Hrest]; subst.
               destruct p as [n' v']. cbn [fst snd] in *.
@@ -615,17 +641,9 @@ Lemma hook_noop m cv vs execok :
 Proof.
   intros Hu. unfold hook_run.
   destruct (append_vars (reserved_keywords m) vs) as [extra|d] eqn:E.
-  - assert (Hn : match cv_hook cv with
-                 | None => HNoop
-                 | Some [] => HNoop
-                 | Some (t :: l) =>
-                     match interp_args hook_drop_empty (alookup (env_list cv extra false)) (t :: l) with
-                     | ROk argv => if execok argv then HExec argv else HFail 1 HExecFail
-                     | RErr e => HFail 1 (HInterp e)
-                     end
-                 end = HNoop) by (destruct Hu as [-> | ->]; reflexivity).
-    rewrite Hn. repeat split; [discriminate|].
-    intros Hno. exfalso. apply Hno. exists extra. now apply append_vars_ok.
+  - assert (Hx : exists extra, Forall2 (var_rel (reserved_keywords m)) vs extra)
+      by (exists extra; now apply append_vars_ok).
+    destruct Hu as [Hh|Hh]; rewrite Hh; (repeat split; [discriminate|intros Hno; contradiction]).
   - repeat split; [discriminate| |eauto].
     intros [extra Hx]. apply append_vars_ok in Hx. congruence.
 Qed.
@@ -649,7 +667,7 @@ Proof.
 Qed.
 
 Lemma hook_argv_length env l argv : hook_argv_of env l argv -> length argv = length l.
-Proof. intros H. symmetry. eapply Forall2_length; eassumption. Qed.
+Proof. unfold hook_argv_of. induction 1; simpl; congruence. Qed.
 
 (* ---- the oracles reflect the specification -------------------------------------------------------- *)
 
